@@ -135,13 +135,13 @@ def check_windows(case, spec, r, ck):
     m = r.op.mapping
     flowed = False
     for a in spec['assets']:
-        if a['type'] == 'StructuredAsset' and (a.get('start') is not None or a.get('end') is not None):
+        if a['type'] in ('StructuredAsset', 'LinkedAsset') and (a.get('start') is not None or a.get('end') is not None):
             # a structured asset is an asset: it (and everything it wraps) is dispatched only inside its own window; a wrapped asset
             # additionally only inside its own
             Ws = set(ck.window(a.get('start'), a.get('end')))
             rows = m[(m['asset'] == a['name'])]
             steps = set(int(t) for t in rows['time_step'].values)
-            case.check('window.mapping_rows_inside', steps <= Ws, asset=a['name'], cls='StructuredAsset', outside=sorted(steps - Ws)[:6], start=a.get('start'), end=a.get('end'))
+            case.check('window.mapping_rows_inside', steps <= Ws, asset=a['name'], cls=a['type'], outside=sorted(steps - Ws)[:6], start=a.get('start'), end=a.get('end'))
             if 'internal_asset' in rows.columns:
                 for x in a['assets']:
                     Wx = Ws & set(ck.window(x.get('start'), x.get('end')))
@@ -226,7 +226,7 @@ def check_takes(case, spec, r, ck):
 
 
 def run_case(rng, tier, case):
-    base = gen.gen_mixed_portfolio(rng, kinds=('contract', 'contract', 'transport', 'storage', 'multi', 'orderbook', 'coarse', 'plant', 'storage_blocks', 'scaled', 'chp_minload'),
+    base = gen.gen_mixed_portfolio(rng, kinds=('contract', 'contract', 'transport', 'storage', 'multi', 'orderbook', 'coarse', 'plant', 'storage_blocks', 'scaled', 'chp_minload', 'linked'),
                                    grid_kw={'steps': (5, 26)}, n_assets=(2, 5), n_nodes=(1, 3))
     spec = gen.strip_private(base)
     if rng.random() < 0.3:
@@ -258,7 +258,7 @@ def run_case(rng, tier, case):
     case.key = env.spec_key([spec, plus, split]); case.sample = {'P': gen.abbreviate(spec), 'inert_element': what, 'split': split}; case.spec = {'P': spec, 'P_plus': plus, 'split': split}
     ck = Clock(spec['grid'])
     mip = gen.is_mip(plus)
-    via_json = rng.random() < 0.15
+    via_json = rng.random() < 0.15 and not any(a['type'] == 'LinkedAsset' for a in plus['assets'])       # (a LinkedAsset cannot be loaded from its JSON: finding F7d of C11)
     if via_json:
         case.feature('portfolio_from_its_json_form')
     r1 = flow.run_portfolio(spec, split=split, via_json=via_json)
